@@ -67,6 +67,15 @@ func (e *Exec) headerSet(m *MapVal, key string, v *Term) {
 
 func (w *World) registerHTTPEffects() {
 	I := w.intrinsics
+	// embedded static files: the handler value is only stored in the route table; serving from
+	// it is outside the model (harnesses exclude those paths)
+	I["net/http.FS"] = func(e *Exec, fn *ssa.Function, a []Value) Value {
+		return &IfaceVal{typ: types.Typ[types.Int], val: mkInt(0)}
+	}
+	I["net/http.FileServer"] = func(e *Exec, fn *ssa.Function, a []Value) Value {
+		return &IfaceVal{typ: types.Typ[types.Int], val: mkInt(1)}
+	}
+	I["net/http.StripPrefix"] = func(e *Exec, fn *ssa.Function, a []Value) Value { return a[1] }
 	I["net/http.StatusText"] = func(e *Exec, fn *ssa.Function, a []Value) Value {
 		c, ok := a[0].(*Term).intVal()
 		if !ok {
